@@ -286,7 +286,11 @@ class Core : public ResultCoreT<Type, Ret, E>, public FuncCore<Func> {
       this->_func.storage.~Storage();
       if constexpr (is_task_v<decltype(async)>) {
         core->StoreCallback(*this);
-        return Step<SymmetricTransfer>(*this, *MoveToCaller(core));
+        // Start the returned Task on its own executor: its head can be any lazy core (Schedule, LazyContract, MakeTask),
+        // and only ReadyCore (MakeTask) may be run through Here()
+        auto* head = MoveToCaller(core);
+        head->_executor->Submit(*head);
+        return Noop<SymmetricTransfer>();
       } else {
         return core->template SetInline<SymmetricTransfer>(*this);
       }
